@@ -680,7 +680,11 @@ class SCModel(HModel):
                 self.do_remove_node(n)
 
     def is_closed(self):
+        """a valid complex: downward closed and no two IDs with the same node set (the inherited
+        Hypergraph mutators -- random_edge_shuffle -- can leave an SC object that is neither)"""
         present = set(self.edges.values())
+        if len(present) != len(self.edges):
+            return False
         for m in present:
             mm = csort(m)
             for k in range(2, len(mm)):
